@@ -12,7 +12,6 @@ import (
 
 	"verifharness/hx"
 
-	"github.com/iotaledger/hive.go/runtime/valuenotifier"
 )
 
 // The `vy` section: Notify concurrent with listener creation, deregistration and Wait.
@@ -34,7 +33,9 @@ func (w *world) execVY(f []string) (string, string) {
 		return "vy " + strings.Join(f, " "), "bad-op"
 	}
 	values, k, nn := p[0], p[1], p[2]
-	n := valuenotifier.New[int]()
+	kt := vnKeyTypes[(values+k/1000+nn)%len(vnKeyTypes)] // the key type of the notifier varies with the parameters
+	n := newVNNotifier(kt)
+	w.count("vy:keytype:" + kt)
 	cctx, cancel := context.WithCancel(context.Background())
 	cancel()
 	type iv struct{ a, b, v int }
